@@ -322,6 +322,24 @@ class CertProperty:
                         {'p': '%s%s%s' % (l[1], l[2], l[5]), 't': 4}, {'p': '%s%s' % (l[0], l[2]), 't': 5}]
             inp = ''.join(rng.choice(letters) for _ in range(8))
             progs.append({'name': 'nm%d' % i, 'modes': [{'name': 'M', 'patterns': pats, 'transitions': []}], 'inputs': [inp]})
+        # registry-sensitive shapes: leaves that are related (complements, the same set spelled
+        # differently, the same character with another literal kind) inside ONE scanner, in one mode,
+        # across modes and in lookaheads: a class registry that identifies or confuses them changes
+        # the language of one of the patterns
+        related = [('\\pL', '\\PL'), ('\\p{Lowercase}', '\\P{Lowercase}'), ('\\pN', '\\PN'), ('\\d', '\\D'), ('\\w', '\\W'),
+                   ('\\s', '\\S'), ('[a-c]', '[^a-c]'), ('a', '\\x61'), ('[[:alpha:]]', '[[:^alpha:]]'), ('\\pL', '\\p{Alphabetic}'),
+                   ('.', '[^\\n\\r]'), ('[ab]', '[ba]'), ('\\p{Uppercase}', '\\P{Uppercase}'), ('[\\pL]', '[\\PL]')]
+        for i, (x, y) in enumerate(related):
+            inputs = ['a1 B', '\u00e9x\n2']
+            progs.append({'name': 'reg_a%d' % i, 'inputs': inputs,
+                          'modes': [{'name': 'M', 'patterns': [{'p': x + '+', 't': 0}, {'p': y + '+', 't': 1}], 'transitions': []}]})
+            progs.append({'name': 'reg_b%d' % i, 'inputs': inputs,
+                          'modes': [{'name': 'M0', 'patterns': [{'p': y + '+', 't': 3}], 'transitions': []},
+                                    {'name': 'M1', 'patterns': [{'p': x + '+', 't': 5}], 'transitions': []}]})
+            if tier == 'thorough' or i % 2 == 0:
+                progs.append({'name': 'reg_c%d' % i, 'inputs': inputs,
+                              'modes': [{'name': 'M', 'patterns': [{'p': x, 't': 0}, {'p': 'a', 't': 1, 'la': {'pos': True, 'p': y}},
+                                                                   {'p': '[0-9]', 't': 2, 'la': {'pos': False, 'p': x}}], 'transitions': []}]})
         for i in range(self.N[tier]):
             r = rng.random()
             if r < 0.5:
